@@ -85,6 +85,4 @@ structure TcpF where
   urgptr : Nat
   dataofs : Nat
 
-/-- `tcp.flags.X` for the flag with mask `m` -/
-def flagSet (flags m : Nat) : Bool := flags / m % 2 == 1
 end P0f
